@@ -27,7 +27,7 @@ ASSUMPTIONS = [
     "a method that names its own function follows ordinary Python scoping when inherited (statement, last sentence)",
 ]
 REPORT_COUNTERS = ["graphs", "node_calls", "trees_compared", "graphs_depth2_inherited_walker",
-                   "override_under_inherited_walker", "selfname_walkers", "recurse_sites_run"]
+                   "override_under_inherited_walker", "selfname_walkers", "recurse_sites_run", "late_modifications_applied", "trees_compared_after_late_change"]
 
 INPUTS = [
     ["v", 1], ["v", "s"],
@@ -84,7 +84,20 @@ def gen_case(rng, params, idx):
                 parents_of[n].append(q)
     order = list(range(nn)) * 2
     rng.shuffle(order)
-    return {"ops": ops, "order": order, "nnodes": nn}
+    # second phase: after every node has been called, methods are registered late (directly where still allowed,
+    # through linkback parents, through add_mixins) and every node is called again
+    late = []
+    for _ in range(rng.choice([0, 1, 2, 3])):
+        if rng.random() < 0.8:
+            late.append(["register", rng.randrange(nn), _gen_method(rng, mid)])
+            mid += 1
+        else:
+            n, q = rng.randrange(nn), rng.randrange(nn)
+            if n != q:
+                late.append(["addmixin_late", n, q])
+    order2 = list(range(nn))
+    rng.shuffle(order2)
+    return {"ops": ops, "order": order, "nnodes": nn, "late": late, "order2": order2}
 
 
 def _gen_method(rng, mid):
@@ -140,6 +153,38 @@ def check_case(spec, res):
                 res.violation("tree-vs-reference", [_diffkind(got, exp)], spec,
                               observed={"node": i, "input": T.vname(vx), "got": repr(got)[:200]},
                               acceptable=repr(exp)[:200])
+    # phase 2: late modifications on functions already in use, then everything is called again
+    applied = 0
+    for op in spec.get("late", []):
+        if op[0] == "addmixin_late":
+            n, q = g.nodes[op[1]], g.nodes[op[2]]
+            if q in n.parents or n in q.ancestors() or n is q:
+                continue
+            op = ["addmixin", op[1], op[2]]
+        try:
+            st = g.apply(op)
+        except Exception as e:  # noqa: BLE001
+            res.violation("late-operation-crashed", [op[0], type(e).__name__], spec,
+                          observed={"op": [x if not isinstance(x, dict) else x["kind"] for x in op], "error": f"{type(e).__name__}: {e}"[:160]},
+                          acceptable="succeeds or refuses with the lock error")
+            g.cleanup()
+            return
+        if st == "ok":
+            applied += 1
+            res.count("late_modifications_applied")
+            # a modification that was accepted must be visible wherever the model says it is; nodes that derive
+            # from the modified one without linkback were locked, so an accepted change implies propagation
+    if applied:
+        for i in spec.get("order2", []):
+            n = g.nodes[i]
+            for vx, v in zip(INPUTS, inputs):
+                res.ev()
+                got, exp = g.call(n, v)
+                res.count("trees_compared_after_late_change")
+                if got != exp:
+                    res.violation("tree-vs-reference-after-late-change", [_diffkind(got, exp)], spec,
+                                  observed={"node": i, "input": T.vname(vx), "got": repr(got)[:200]},
+                                  acceptable=repr(exp)[:200])
     g.cleanup()
 
 
